@@ -5,5 +5,5 @@ From Coq Require Import ZArith.
 From Verif Require Import Latch.Model.
 Extraction Language OCaml.
 Extraction "latch_model.ml"
-  init_state exec acquire release acquire_slot release_slot recycle_slot gen_lock key_at complete
+  init_state exec acquire release acquire_slot release_slot recycle_slot gen_lock key_at complete client_okb
   Z.of_N. (* Z.of_N only so that the shared common.ml (which mentions type z) compiles *)
